@@ -416,6 +416,18 @@ Theorem C16_gen_tversky_forms :
 Proof. intros K Kf x0 x1 x2 x3 y0 y1 y2 y3 al be eps. exact (gen_tversky_forms_ok K Kf x0 x1 x2 x3 y0 y1 y2 y3 al be eps). Qed.
 Print Assumptions C16_gen_tversky_forms.
 
+From Coq Require Import String.
+(* module wrappers with implicit normalisation (losses/base.py, traced): which images the default factor
+   max_difference(.,.)^2 is computed from, for every way of constructing the loss *)
+Theorem C16_norm_defaults :
+  gen_norm_defaults =
+  [("source", "max_difference(source, source)^2"); ("target", "max_difference(target, target)^2");
+   ("source, target", "max_difference(source, target)^2"); ("target, norm=True", "max_difference(target, target)^2");
+   ("source, norm=True", "max_difference(source, source)^2"); ("source, target, norm=False", "None");
+   ("norm=c", "c"); ("source, target, norm=c", "c"); ("nothing", "None")]%string.
+Proof. exact norm_defaults_ok. Qed.
+Print Assumptions C16_norm_defaults.
+
 Theorem C16_gen_ncc :
   forall (K : fld), is_field K -> forall (x0 x1 x2 x3 y0 y1 y2 y3 eps : K),
   gen_ncc eps [x0; x1; x2; x3] [y0; y1; y2; y3] = [ncc_one eps [x0; x1; x2; x3] [y0; y1; y2; y3]] /\
@@ -491,5 +503,5 @@ Example C16_nonvacuous :
        (nth 0 (pointwise_loss sqd RMean ([q 1 1; q 9 1; q 2 1; q 7 2] : list QcF) t (Some p)) zero) = true /\
   qeqb (nth 0 (pointwise_loss sqd RMean s t (Some p)) zero) zero = false /\
   (* windows of a 3 x 4 image with a 3 x 3 kernel: corner has 4 members, interior 9 *)
-  (length (box_nb [3; 4] [3; 3] 0), length (box_nb [3; 4] [3; 3] 5))%nat = (4, 9)%nat.
+  (List.length (box_nb [3; 4] [3; 3] 0), List.length (box_nb [3; 4] [3; 3] 5))%nat = (4, 9)%nat.
 Proof. vm_compute. repeat split. Qed.
